@@ -74,7 +74,7 @@ Qed.
 (* vec growth: checked, performed, accounted -- the charge follows the capacity *)
 Lemma vec_grow_step cap m v add : Inv m -> vcharged v = vec_bytes v -> vlen v <= vcap v ->
   let '(r, m', v', t) := vec_grow cap m v add in
-  step_ok m r m' /\ check_first t = true /\ vcharged v' = vec_bytes v' /\ vlen v' = vlen v /\ vcap v <= vcap v' /\
+  step_ok m r m' /\ check_first t = true /\ vcharged v' = vec_bytes v' /\ vlen v' = vlen v /\ velem v' = velem v /\ vcap v <= vcap v' /\
   held m' + vec_bytes v = held m + vec_bytes v' /\
   (r = ROk -> vlen v + add <= vcap v') /\ (r <> ROk -> v' = v /\ m' = m).
 Proof.
@@ -82,28 +82,28 @@ Proof.
   destruct (add <=? vcap v - vlen v) eqn:E0; [cbn; repeat split; auto; intros; try lia; congruence|].
   destruct (USIZE_MAX <? vlen v + add); [cbn; repeat split; auto; intros; try lia; discriminate|].
   set (required := vlen v + add). set (amort := N.max required (N.max (2 * vcap v) 4)).
-  assert (Hfin : forall nc, vcap v <= nc -> required <= nc -> ensure m ((nc - vcap v) * SZ_VALUE) = true ->
+  assert (Hfin : forall nc, vcap v <= nc -> required <= nc -> ensure m ((nc - vcap v) * velem v) = true ->
     let '(r, m', v', t) :=
-      (if host_ok cap (nc * SZ_VALUE)
-       then (ROk, add_heap m ((nc - vcap v) * SZ_VALUE), mkVec (vlen v) nc (vcharged v + (nc - vcap v) * SZ_VALUE),
-             [ECheck ((nc - vcap v) * SZ_VALUE) true; EHost (nc * SZ_VALUE); ECharge ((nc - vcap v) * SZ_VALUE)])
-       else (RAbort, m, v, [ECheck ((nc - vcap v) * SZ_VALUE) true; EHost (nc * SZ_VALUE)])) in
+      (if host_ok cap (nc * velem v)
+       then (ROk, add_heap m ((nc - vcap v) * velem v), mkVec (vlen v) nc (vcharged v + (nc - vcap v) * velem v) (velem v),
+             [ECheck ((nc - vcap v) * velem v) true; EHost (nc * velem v); ECharge ((nc - vcap v) * velem v)])
+       else (RAbort, m, v, [ECheck ((nc - vcap v) * velem v) true; EHost (nc * velem v)])) in
     (heap m' + manual m' <= maxb m' /\ maxb m' = maxb m /\ (r = ROk \/ m' = m)) /\ check_first t = true /\
-    vcharged v' = vec_bytes v' /\ vlen v' = vlen v /\ vcap v <= vcap v' /\
+    vcharged v' = vec_bytes v' /\ vlen v' = vlen v /\ velem v' = velem v /\ vcap v <= vcap v' /\
     heap m' + manual m' + vec_bytes v = heap m + manual m + vec_bytes v' /\
     (r = ROk -> vlen v + add <= vcap v') /\ (r <> ROk -> v' = v /\ m' = m)).
   { intros nc Hnc Hreq En. apply ensure_sound in En. unfold vec_bytes in *.
-    destruct (host_ok cap (nc * SZ_VALUE)); cbn [add_heap heap manual maxb check_first vcharged vcap vlen];
+    destruct (host_ok cap (nc * velem v)); cbn [add_heap heap manual maxb check_first vcharged vcap vlen velem];
       repeat split; auto; intros; try lia; try congruence. }
-  destruct ((amort - vcap v) * SZ_VALUE <? U64) eqn:Eb; cbn [andb].
-  - destruct (ensure m ((amort - vcap v) * SZ_VALUE)) eqn:Ea.
+  destruct ((amort - vcap v) * velem v <? U64) eqn:Eb; cbn [andb].
+  - destruct (ensure m ((amort - vcap v) * velem v)) eqn:Ea.
     + apply Hfin; [unfold amort; lia | unfold amort; lia | exact Ea].
-    + destruct (U64 <=? (required - vcap v) * SZ_VALUE); [cbn; repeat split; auto; intros; try lia; discriminate|].
-      destruct (ensure m ((required - vcap v) * SZ_VALUE)) eqn:Er.
+    + destruct (U64 <=? (required - vcap v) * velem v); [cbn; repeat split; auto; intros; try lia; discriminate|].
+      destruct (ensure m ((required - vcap v) * velem v)) eqn:Er.
       * apply Hfin; [unfold required; lia | lia | exact Er].
       * cbn; repeat split; auto; intros; try lia; discriminate.
-  - destruct (U64 <=? (required - vcap v) * SZ_VALUE); [cbn; repeat split; auto; intros; try lia; discriminate|].
-    destruct (ensure m ((required - vcap v) * SZ_VALUE)) eqn:Er.
+  - destruct (U64 <=? (required - vcap v) * velem v); [cbn; repeat split; auto; intros; try lia; discriminate|].
+    destruct (ensure m ((required - vcap v) * velem v)) eqn:Er.
     + apply Hfin; [unfold required; lia | lia | exact Er].
     + cbn; repeat split; auto; intros; try lia; discriminate.
 Qed.
@@ -115,10 +115,10 @@ Lemma vec_push_step cap m v : Inv m -> vcharged v = vec_bytes v -> vlen v <= vca
   (r = ROk -> vlen v' = vlen v + 1 /\ vlen v' <= vcap v') /\ (r <> ROk -> v' = v /\ m' = m).
 Proof.
   intros HI Hc Hlc. unfold op_vec_push. pose proof (vec_grow_step cap m v 1 HI Hc Hlc) as H.
-  destruct (vec_grow cap m v 1) as [[[r m'] v'] t]. destruct H as (A & B & C & D & E & F & G & K).
+  destruct (vec_grow cap m v 1) as [[[r m'] v'] t]. destruct H as (A & B & C & D & D2 & E & F & G & K).
   unfold step_ok in *. destruct A as (A1 & A2 & A3).
   destruct r; try (repeat split; auto; intros; try discriminate; apply K; discriminate).
-  specialize (G eq_refl). unfold vec_bytes in *. cbn [vcharged vcap vlen].
+  specialize (G eq_refl). unfold vec_bytes in *. cbn [vcharged vcap vlen velem]. rewrite ?D2 in *.
   repeat split; auto; intros; try lia; congruence.
 Qed.
 
@@ -131,7 +131,7 @@ Proof.
   intros HI Hc Hlc. unfold op_vec_reserve. destruct (a <? 0)%Z eqn:Ea.
   - unfold step_ok. cbn. repeat split; auto; intros; try lia.
   - pose proof (vec_grow_step cap m v (Z.to_N a) HI Hc Hlc) as H.
-    destruct (vec_grow cap m v (Z.to_N a)) as [[[r m'] v'] t]. destruct H as (A & B & C & D & E & F & G & K).
+    destruct (vec_grow cap m v (Z.to_N a)) as [[[r m'] v'] t]. destruct H as (A & B & C & D & D2 & E & F & G & K).
     unfold step_ok in *. destruct A as (A1 & A2 & A3).
     repeat split; auto; intros; try lia; apply K; assumption.
 Qed.
@@ -150,15 +150,16 @@ Proof.
     + cbn. repeat split; auto.
 Qed.
 
-Lemma pad_step cap m sl w : Inv m ->
-  let '(r, m', t) := op_pad cap m sl w in
+Lemma pad_step cap m sc sb pb w : Inv m ->
+  let '(r, m', t) := op_pad cap m sc sb pb w in
   step_ok m r m' /\ check_first t = true /\ (r = ROom -> host_total t = 0).
 Proof.
   unfold step_ok, Inv. intro HI. unfold op_pad.
-  destruct ((w <=? 0)%Z || (Z.to_N w <=? sl)); [cbn; repeat split; auto|].
-  destruct (ISIZE_MAX <? Z.to_N w); [cbn; repeat split; auto|].
-  destruct (ensure m (SZ_STRING + Z.to_N w)) eqn:E.
-  - apply ensure_sound in E. destruct (host_ok cap (3 * Z.to_N w)); cbn [add_heap heap manual maxb check_first host_total];
+  destruct ((w <=? 0)%Z || (Z.to_N w <=? sc)); [cbn; repeat split; auto|].
+  set (total := (Z.to_N w - sc) * pb + sb).
+  destruct (ISIZE_MAX <? total); [cbn; repeat split; auto|].
+  destruct (ensure m (SZ_STRING + total)) eqn:E.
+  - apply ensure_sound in E. destruct (host_ok cap (3 * total)); cbn [add_heap heap manual maxb check_first host_total];
       repeat split; auto; intros; try lia; discriminate.
   - cbn. repeat split; auto.
 Qed.
@@ -178,7 +179,7 @@ Lemma gstep_inv cap m o : Inv m ->
   (match o with GStr _ | GBytes _ | GManualFree _ | GSweep _ => True | GRepeat _ n => (0 < n)%Z -> check_first t = true
               | _ => check_first t = true end).
 Proof.
-  intros HI Hv. destruct o as [len | size | n | b | sz | e n | v | v a | sl n | sl w | n]; cbn [gstep].
+  intros HI Hv. destruct o as [len | size | n | b | sz | e n | v | v a | sl n | sc sb pb w | n]; cbn [gstep].
   - pose proof (string_step m len HI) as H. destruct (op_string m len) as [[r m'] t]. destruct H as (A & B & C). auto.
   - pose proof (object_step m size HI) as H. destruct (op_object m size) as [[r m'] t]. destruct H as ((A & B & C) & D). auto.
   - pose proof (manual_step m n HI) as H. destruct (op_manual m n) as [[r m'] t]. destruct H as ((A & B & C) & D). auto.
@@ -189,7 +190,7 @@ Proof.
   - destruct Hv as [Hv Hl]. pose proof (vec_reserve_step cap m v a HI Hv Hl) as H. destruct (op_vec_reserve cap m v a) as [[[r m'] v'] t]. destruct H as ((A & B & C) & D & _). auto.
   - pose proof (repeat_step cap m sl n HI) as H. destruct (op_repeat cap m sl n) as [[r m'] t]. destruct H as ((A & B & C) & D).
     repeat split; auto. intro Hn. apply D; assumption.
-  - pose proof (pad_step cap m sl w HI) as H. destruct (op_pad cap m sl w) as [[r m'] t]. destruct H as ((A & B & C) & D & _). auto.
+  - pose proof (pad_step cap m sc sb pb w HI) as H. destruct (op_pad cap m sc sb pb w) as [[r m'] t]. destruct H as ((A & B & C) & D & _). auto.
   - pose proof (bytes_step cap m n HI) as H. destruct (op_bytes cap m n) as [[r m'] t]. destruct H as ((A & B & C) & D). auto.
 Qed.
 
@@ -243,7 +244,7 @@ Proof. intros Hc Hle. unfold op_sweep; cbn [heap]. rewrite Hc. reflexivity. Qed.
    32 + 8192 bytes: 8184 bytes that belong to OTHER live objects disappeared from the budget *)
 Lemma old_sweep_grown_witness :
   let m := mkMem 100040 0 1048576 in
-  let v := mkVec 1024 1024 40 in
+  let v := mkVec 1024 1024 40 8 in
   heap (op_sweep m (vec_bytes v)) = 91816 /\ heap m - vcharged v = 100000.
 Proof. vm_compute. split; reflexivity. Qed.
 
@@ -272,16 +273,18 @@ Lemma repaired_array_witness :
 Proof. vm_compute. repeat split; reflexivity. Qed.
 
 Lemma repaired_vec_witness :
-  (let '(r, m', v') := push_many 2000 w_cap w_mem (mkVec 1 1 40) in
+  (let '(r, m', v') := push_many 2000 w_cap w_mem (mkVec 1 1 40 8) in
    r = ROk /\ vlen v' = 2001 /\ vcap v' = 2048 /\ vcharged v' = vec_bytes v' /\ held m' = held w_mem + 2047 * 8) /\
-  (let '(r, m', v', _) := op_vec_reserve w_cap w_mem (mkVec 1 1 40) 131072 in r = ROom /\ m' = w_mem) /\
-  fst (fst (fst (op_vec_reserve w_cap w_mem (mkVec 1 1 40) (-1)))) = RTypeErr /\
-  fst (fst (fst (op_vec_reserve w_cap w_mem (mkVec 1 1 40) 1000000000000))) = ROom.
+  (let '(r, m', v', _) := op_vec_reserve w_cap w_mem (mkVec 1 1 40 8) 131072 in r = ROom /\ m' = w_mem) /\
+  fst (fst (fst (op_vec_reserve w_cap w_mem (mkVec 1 1 40 8) (-1)))) = RTypeErr /\
+  fst (fst (fst (op_vec_reserve w_cap w_mem (mkVec 1 1 40 8) 1000000000000))) = ROom.
 Proof. vm_compute. repeat split; reflexivity. Qed.
 
 Lemma repaired_string_witness :
   op_repeat w_cap w_mem 16 100000 = (ROom, w_mem, [ECheck 1600024 false]) /\
   fst (fst (op_repeat w_cap w_mem 16 100000000000)) = ROom /\
-  op_pad w_cap w_mem 16 (-1) = (ROk, w_mem, []) /\
-  op_pad w_cap w_mem 16 100000000000000 = (ROom, w_mem, [ECheck 100000000000024 false]).
+  op_pad w_cap w_mem 16 16 1 (-1) = (ROk, w_mem, []) /\
+  op_pad w_cap w_mem 16 16 1 100000000000000 = (ROom, w_mem, [ECheck 100000000000024 false]) /\
+  (* a three-byte pad character: 400 000 characters are 1.2 MB *)
+  op_pad w_cap w_mem 16 16 3 400016 = (ROom, w_mem, [ECheck 1200040 false]).
 Proof. vm_compute. repeat split; reflexivity. Qed.
